@@ -102,6 +102,8 @@ def exec_PROG(t):
                 elif op == 'resize':
                     s2, n2, f2 = rand_fmt(rng, maxw)
                     if abs(f2 - x.n_frac) <= 30 and not x.scaled:
+                        if x.ndim >= 1 and rng.random() < 0.6:
+                            _ = x[0]; _ = x[0:1]            # the array has been indexed before it is re-formatted
                         how = rng.choice(['pos', 'pos', 'dtype', 'dtype', 'nint_nfrac', 'nword_nint'])
                         i2 = n2 - f2 - int(s2)
                         if how == 'pos':
@@ -116,6 +118,11 @@ def exec_PROG(t):
                         else:
                             x.resize(signed=s2, n_word=n2, n_int=i2)
                         emit(x)
+                        if x.ndim >= 1:
+                            # an element (a slice) taken now is an object of the array's format as it is now
+                            e_ = x[rng.randrange(x.shape[0])] if rng.random() < 0.5 else x[0:1]
+                            assert (bool(e_.signed), e_.n_word, e_.n_frac) == (bool(x.signed), x.n_word, x.n_frac), 'element format differs from its array'
+                            emit(e_)
                 elif op == 'like':
                     if not (x.scaled or y.scaled) and abs(y.n_frac - x.n_frac) <= 30:
                         emit(x.like(y))
